@@ -54,7 +54,7 @@ func c06(c *Ctx) {
 			errExit := false
 			for _, sc := range i.Block().Succs {
 				for _, in := range sc.Instrs {
-					if ret, ok := an.AsReturn(in); ok && len(ret.Results) == 1 && !an.IsNilConst(an.RetVal(ret, 0)) {
+					if ret, ok := an.AsReturn(in); ok && len(ret.Results) == 1 && !an.MayBeNilConst(an.RetVal(ret, 0)) {
 						errExit = true
 					}
 				}
